@@ -48,6 +48,16 @@ CHECKS = {
             'Trusted: mc/refs/relmodel.py. Stable descending order (ties keep incoming order) is what the statement defines. '
             'Subtype navigation with two related subtype instances is only required to return one of them.',
             'DESIGN.md section 5, C09'),
+    'C10': ('explorer',
+            'explicit-state BFS to closure over attribute writes/deletes/relate under every case pattern of every name, against a dict reference',
+            'On a class with an identifying, a plain and a referential attribute, every write and delete under each of the '
+            '2^n case patterns of each attribute name, relate/unrelate, and every constructor form (keyword under every '
+            'spelling of class and attribute name, positional) is executed in every reachable canonical state (reference '
+            'values, last spelling written, keys of the instance dictionary), to closure. In every state every read route is '
+            'compared with the reference: getattr under every spelling, serialize_instance, where_eq and dict filters under '
+            'every spelling and value, find_metaclass/find_class/select under every class spelling, attribute_type.',
+            'Trusted: the reference dict keyed by upper-cased name. After a deletion only uniformity across spellings is required.',
+            'DESIGN.md section 5, C10'),
 }
 
 NOT_YET = 'check not built yet in this revision (planned, see DESIGN.md section 5); not claimed until it exists'
